@@ -82,6 +82,7 @@ class Report:
         self.counters = {}
         self.notes = []
         self.fatal = []      # fail-closed diagnostics (missing anchors, floors)
+        self.notes_table = {}
         self.stale = []
 
     def add(self, inst, config=None):
@@ -196,6 +197,7 @@ def finish(report, tier, t0, explanation, assumptions, rule_text, extra_cov=None
         "known_findings_not_reproduced": sorted(stale_known),
         "stale_table_entries": report.stale,
         "notes": report.notes,
+        "derived_tables": report.notes_table,
         "fail_closed": report.fatal,
         "checker_cmd": "/verif/check %s --tier %s" % (prop, tier),
         "trusted_base": ["rustc nightly type checker / trait resolution / MIR construction",
